@@ -8,6 +8,7 @@ import (
 	"strings"
 	"testing"
 	"testing/synctest"
+	"time"
 
 	"github.com/corestario/kyber/encrypt/ecies"
 	"github.com/corestario/kyber/pairing/bls12381"
@@ -34,6 +35,10 @@ type c11Plan struct {
 	// Refeed: how often the operator feeds an operation that its machine refused to the same running machine again
 	// (re-scanning the QR codes after seeing an error): the refusal must be repeated every time
 	Refeed int `json:"refeed,omitempty"`
+	// Targeted: the deviating dealer also tells the victim - and only the victim - that it failed itself (a correctly
+	// signed error report about itself addressed to the victim), after the victim's node entered the responses step and
+	// before the victim's operator returns: the victim's own refusal must still reach the board and cancel the round for all
+	Targeted bool `json:"targeted,omitempty"`
 }
 
 var c11Kinds = []string{
@@ -45,19 +50,20 @@ func c11Gen(rt *rapid.T) c11Plan {
 	nt := rapid.SampledFrom([][2]int{{2, 2}, {3, 2}, {3, 3}, {4, 3}, {5, 3}}).Draw(rt, "nt")
 	return c11Plan{N: nt[0], T: nt[1], Dealer: rapid.IntRange(0, nt[0]-1).Draw(rt, "dealer"), Victim: rapid.IntRange(1, nt[0]-1).Draw(rt, "victim"),
 		Kind: rapid.SampledFrom(c11Kinds).Draw(rt, "kind"), A: rapid.IntRange(0, 100000).Draw(rt, "a"), B: rapid.IntRange(0, 255).Draw(rt, "b"),
-		Refeed: rapid.SampledFrom([]int{0, 0, 1, 2}).Draw(rt, "refeed")}
+		Refeed: rapid.SampledFrom([]int{0, 0, 1, 2}).Draw(rt, "refeed"), Targeted: rapid.IntRange(0, 3).Draw(rt, "targeted") == 0}
 }
 
 type c11Obs struct {
-	States     []string
-	Applied    bool
-	VictimEv   []string // events of result operations that carried an error
-	Panic      string
-	Keyrings   []bool
-	Err        error
-	Consistent bool   // the altered contribution happened to be consistent (e.g. swap of equal points)
-	Refed      int    // refused operations fed again
-	Relented   string // non-empty: a machine that had refused an operation accepted it when it was fed again
+	States       []string
+	Applied      bool
+	VictimEv     []string // events of result operations that carried an error
+	Panic        string
+	Keyrings     []bool
+	Err          error
+	Consistent   bool // the altered contribution happened to be consistent (e.g. swap of equal points)
+	Refed        int  // refused operations fed again
+	TargetedSent bool
+	Relented     string // non-empty: a machine that had refused an operation accepted it when it was fed again
 }
 
 func c11Execute(p c11Plan, root string) (obs c11Obs) {
@@ -280,7 +286,19 @@ func c11Execute(p c11Plan, root string) (obs c11Obs) {
 			}
 			resFile, _ = json.Marshal(res)
 		}
-		return w.Nodes[i].SubmitResult(resFile)
+		if p.Targeted && i == V && obs.Applied && !obs.TargetedSent && string(op.Type) == "state_dkg_responses_await_confirmations" {
+			rep, _ := json.Marshal(requests.DKGProposalConfirmationErrorRequest{ParticipantId: D, Error: requests.NewFSMError(fmt.Errorf("machine failure")), CreatedAt: time.Now()})
+			w.PostSigned(D, round, "event_dkg_response_confirm_canceled_by_error", rep, w.Names[V])
+			w.Poll(V, -1)
+			obs.TargetedSent = true
+		}
+		if err := w.Nodes[i].SubmitResult(resFile); err != nil {
+			if i == V && strings.HasSuffix(string(res.Event), "_error") {
+				return fmt.Errorf("refusal not posted: participant %d's node did not take its machine's %s: %w", i, res.Event, err)
+			}
+			return err
+		}
+		return nil
 	}
 	for r := 0; r < 100; r++ {
 		progress := w.PollAll()
@@ -331,6 +349,9 @@ func c11Run(t *testing.T, st *vstat.Stats, p c11Plan) *viol {
 		if strings.Contains(obs.Err.Error(), "fatal error instead of an error result") {
 			return violf("no-error-result:"+p.Kind, "%s: %v", desc, obs.Err)
 		}
+		if strings.Contains(obs.Err.Error(), "refusal not posted") {
+			return violf("refusal-not-posted:"+p.Kind, "%s (dealer also reported its own failure to the victim only: %v): %v", desc, obs.TargetedSent, obs.Err)
+		}
 		return violf("harness", "%s: %v", desc, obs.Err)
 	}
 	if !obs.Applied {
@@ -378,7 +399,10 @@ func c11Run(t *testing.T, st *vstat.Stats, p c11Plan) *viol {
 	}
 	st.Class("kind:" + p.Kind)
 	st.Class("class:" + cls)
-	st.NonTrivial(fmt.Sprintf("%d/%d/%d/%d/%s/%d/%d", p.N, p.T, p.Dealer, p.Victim, p.Kind, p.A%7, p.B%3))
+	if obs.TargetedSent {
+		st.Class("dealer-reported-own-failure-to-the-victim-only")
+	}
+	st.NonTrivial(fmt.Sprintf("%d/%d/%d/%d/%s/%d/%d/%v", p.N, p.T, p.Dealer, p.Victim, p.Kind, p.A%7, p.B%3, obs.TargetedSent))
 	st.SampleEvery(12, map[string]any{"n": p.N, "t": p.T, "dealer": p.Dealer, "victim": (p.Dealer + p.Victim) % p.N, "deviation": p.Kind, "error_results": obs.VictimEv, "final_states": obs.States})
 	return nil
 }
